@@ -276,6 +276,13 @@ def _configs(tier, salts):
                             if bnd:
                                 cfg["lo"], cfg["hi"] = lo.tolist(), hi.tolist()
                             out.append((cfg, {"depth": 0}))
+        # geometries whose trust-region step can increase the model, with and without hard restarts from a fresh evaluation
+        # of the best point (the restart point is evaluated as it is stored)
+        if salt == 0 or tier == "thorough":
+            for cfg, plan in cfgs.tr_increase_cfgs(salt, restarts=("none", "hard_new", "hard_old")):
+                if not cfg.get("sets"):
+                    continue
+                out.append((dict(cfg, record_dykstra=True, tag_start="trinc", tag_restart=cfg["tag_mode"]), plan))
         # projection modes of the broad option bank (user Dykstra parameters, restarts, regulariser + projections)
         if salt == 0 or tier == "thorough":
             for name, cfg in cfgs.broad_cfgs(salt=salt, require=("sets",), budgets=(12, 35), reg_budgets=(8,)):
